@@ -3,7 +3,8 @@ package main
 // C20: portfolio analytics (`knut portfolio weights`, `knut portfolio returns`) against the
 // valued balance.  Generator of portfolio journals and the three observers
 //   C20.weights  stdout of `portfolio weights --csv ...`  ##  stdout of the same command as a text table
-//                (the text table's indentation carries the tree structure the CSV drops)
+//                (the text table's indentation carries the tree structure the CSV drops)  ##  the text table of
+//                the same command without -m (the commodities a mapping folds into a group are rows only there)
 //   C20.returns  stdout of `portfolio returns ...`
 //   C20.cross    weights CSV ## `balance -v V --csv -a -s .` CSV ## returns text, same journal and dates
 
@@ -171,7 +172,9 @@ func obsC20(which string) obsFunc {
 			}
 			switch which {
 			case "weights":
-				out = run(cfg.weightsArgs(dir, true, cfg.From)) + c20Sep + run(cfg.weightsArgs(dir, false, cfg.From))
+				plain := cfg
+				plain.Map = nil
+				out = run(cfg.weightsArgs(dir, true, cfg.From)) + c20Sep + run(cfg.weightsArgs(dir, false, cfg.From)) + c20Sep + run(plain.weightsArgs(dir, false, cfg.From))
 			case "returns":
 				out = run(cfg.returnsArgs())
 			case "cross":
@@ -483,11 +486,39 @@ func genFilters(r *rng, p pfJournal, c *PfCfg, comFilter bool) {
 	}
 }
 
-// mappings that collapse whole sub-trees (no node is both a row of its own and a group):
-// a rule without regex, or anchored at a class prefix no longer than its level
+// mappings: a rule without regex or anchored at a class prefix no longer than its level collapses whole sub-trees;
+// one case in three the regex is anchored at a LONGER class path (or names a commodity), so that only part of a
+// group is folded and the group's node is a leaf and a parent at once (seeded change C20b-leaf-group-not-propagated
+// stopped summing the children of such a node; the generator used to avoid these mappings because the group law
+// was checked on the visible rows only - it now reads the folded commodities off the run without -m)
 func genMapping(r *rng, uni string) []string {
-	if !r.chance(35) {
+	if !r.chance(45) {
 		return nil
+	}
+	if uni != "-" && r.chance(40) {
+		// partial folding on purpose: two classes that share a prefix of k >= 1 segments; a rule of level <= k,
+		// suffix 0, restricted to ONE of them folds its commodities into the shared group, which keeps the other
+		// class as a member
+		cls := strings.Split(uni, ";")
+		r.shuffle(len(cls), func(a, b int) { cls[a], cls[b] = cls[b], cls[a] })
+		for i := 0; i < len(cls); i++ {
+			for k := 0; k < len(cls); k++ {
+				a := strings.Split(cls[i][:strings.LastIndex(cls[i], "=")], ":")
+				b := strings.Split(cls[k][:strings.LastIndex(cls[k], "=")], ":")
+				if i == k || a[0] != b[0] {
+					continue
+				}
+				shared := 0
+				for shared < len(a) && shared < len(b) && a[shared] == b[shared] {
+					shared++
+				}
+				rx := "^" + strings.Join(a, ":")
+				if len(a) == shared { // a is a prefix of b: restrict the rule to one commodity of a
+					rx += ":" + pick(r, strings.Split(cls[i][strings.LastIndex(cls[i], "=")+1:], ","))
+				}
+				return []string{fmt.Sprintf("%d,%s", r.rangeInt(1, shared), rx)}
+			}
+		}
 	}
 	level := r.rangeInt(1, 3)
 	suffix := pick(r, []int{0, 0, 1, 1, 2})
@@ -495,13 +526,24 @@ func genMapping(r *rng, uni string) []string {
 	if suffix > 0 {
 		m = fmt.Sprintf("%d:%d", level, suffix)
 	}
-	if uni != "-" && r.chance(50) {
+	if uni != "-" && r.chance(60) {
 		cl := pick(r, strings.Split(uni, ";"))
-		segs := strings.Split(cl[:strings.LastIndex(cl, "=")], ":")
-		if len(segs) > level {
-			segs = segs[:level]
+		eq := strings.LastIndex(cl, "=")
+		segs := strings.Split(cl[:eq], ":")
+		switch {
+		case r.chance(35):
+			// the whole class path, or the class path and one of its commodities
+			rx := "^" + strings.Join(segs, ":")
+			if r.chance(40) {
+				rx += ":" + pick(r, strings.Split(cl[eq+1:], ","))
+			}
+			m += "," + rx
+		default:
+			if len(segs) > level {
+				segs = segs[:level]
+			}
+			m += ",^" + strings.Join(segs[:1+r.intn(len(segs))], ":")
 		}
-		m += ",^" + strings.Join(segs[:1+r.intn(len(segs))], ":")
 	}
 	return []string{m}
 }
